@@ -132,6 +132,8 @@ def h_stats(ctx, kinds, parts, order, ctag=''):
   for name in ('FlowStatsReceived', 'TableStatsReceived', 'PortStatsReceived', 'QueueStatsReceived', 'SwitchDescReceived', 'AggregateFlowStatsReceived'):
     con.addListenerByName(name, lambda e, name=name: got.append((name, e)))
   xids = [ctx.int('xid1', 0, 0xffffffff), ctx.int('xid2', 0, 0xffffffff)]
+  # two interleaved requests of the same type are only distinguishable by their transaction ids
+  if ctag and kinds[0] == kinds[1]: ctx.assume(xids[0] != xids[1])
   tagc = [0]
   def body(kind):
     tagc[0] += 1; t = tagc[0]
@@ -173,7 +175,8 @@ def h_stats(ctx, kinds, parts, order, ctag=''):
     ctx.check('event type', name == evname[kinds[r]])
     if kinds[r] in ('flow', 'table', 'port', 'queue'):
       key = dict(flow='cookie', table='table_id', port='port_no', queue='port_no')[kinds[r]]
-      tags = [getattr(x, key) for x in e.stats]
+      tags = [getattr(x, key, ('foreign', type(x).__name__)) for x in e.stats]
+      ctx.check("event carries no entry of another request", all(t in sent[r] for t in tags))
       ctx.check("event carries exactly its own request's entries in order", tags == sent[r])
     elif kinds[r] == 'desc':
       ctx.check('desc body', e.stats.mfr_desc == 'm%d' % sent[r][-1])
